@@ -223,11 +223,27 @@ def examine_history(case):
     _fcache.clear()
     out = []
     for step in case['steps']:
+        if 'noise' in step:
+            run_noise(step)
+            continue
         out = examine_point(step)
     for v in out:
         v['sig'] = v['sig'] + ['after-other-lookups']
         v['case'] = case
     return out
+
+
+def run_noise(step):
+    """An unrelated call between two judged lookups: a tabulated event, a field event, or a call that raises."""
+    fn, g, age, code, year = step['noise']
+    if fn == 'best':
+        return call(athlib.wma_world_best, g, code, year=year)
+    if fn == 'grade':
+        return call(athlib.wma_age_grade, g, age, code, 1000.0, year=year)
+    return call(athlib.wma_age_factor, g, age, code, year=year)
+
+
+NOISE_CODES = ['5K', 'MAR', '10000', 'HJ', 'SP', '3000SC', 'NOPE', '', '7.5K', '0', 'mile', '100H']
 
 
 def shard_mixed(ctx, payload):
@@ -245,6 +261,12 @@ def shard_mixed(ctx, payload):
         seg = []
         codes = rng.sample(pool, 5)
         for _ in range(40):
+            if rng.randrange(5) == 0:
+                # tabulated / field events and calls that raise (unknown event, gender, age) in between
+                seg.append({'noise': [rng.choice(['best', 'grade', 'factor']), rng.choice(['m', 'f', 'm', 'f', 'x', '']),
+                                      rng.choice([35, 50, 72.5, 3, -1]), rng.choice(NOISE_CODES), rng.choice([2015, 2023])]})
+                run_noise(seg[-1])
+                continue
             m = rng.choice(codes) if rng.randrange(4) else rng.randrange(60, 190000)
             step = {'year': rng.choice([2015, 2023]), 'g': rng.choice('mf'), 'code': str(m), 'metres': m,
                     'ages': [rng.choice(AGES)]}
